@@ -244,8 +244,9 @@ func r11_2(c *Ctx) {
 			c.undecided(name, P.ipos(ret), "unexpected result arity")
 			continue
 		}
-		retry := sources(ret.Results[0])
-		errs := sources(ret.Results[1])
+		// a bare `return` reads the named results from memory (the function has a defer): follow each to the value it holds
+		retry := sources(throughLocalCell(ret.Results[0]))
+		errs := sources(throughLocalCell(ret.Results[1]))
 		if len(retry) != 1 || len(errs) != 1 {
 			c.undecided(name, P.ipos(ret), "return operands do not resolve to single values")
 			continue
